@@ -121,6 +121,15 @@ def cases(tier, seed):
                 continue
             out.append({"input": {"kind": "gram_charlier", "cumulants": [str(kv[j]) for j in range(1, k + 1)]}})
             out.append({"input": {"kind": "cornish_fisher", "cumulants": [str(kv[j]) for j in range(1, k + 1)]}})
+    if tier != "quick":
+        # the thorough enumeration is larger than its budget: the order is a seed-dependent permutation, so that the part that is
+        # reached differs between runs (the evidence reports the cut as skipped_budget / exhaustive: false)
+        import random
+
+        head = [c for c in out if c["input"]["kind"] != "program"]
+        tail = [c for c in out if c["input"]["kind"] == "program"]
+        random.Random(seed).shuffle(tail)
+        out = head + tail
     # de-duplicate expansions
     seen, uniq = set(), []
     for c in out:
